@@ -481,6 +481,7 @@ def reg_sweep(ctx, want):
         return
     with ThreadPoolExecutor(max_workers=12) as ex:
         results = list(ex.map(reg_one, REG_CONFIGS))
+    results = [reg_one(r['cfg'], timeout=600) if (r['end'] is None and not any(x['kinds'] for x in r['rows'])) else r for r in results]
     hits, total, incomplete, per, outcomes = {}, 0, [], {}, {}
     for res in results:
         m, n, pv = cfg = res['cfg']
